@@ -15,6 +15,7 @@ import (
 	"os"
 	"path/filepath"
 	"sort"
+	"strconv"
 	"strings"
 
 	"github.com/sourcenetwork/defradb/client"
@@ -220,16 +221,23 @@ func runCase(ctx context.Context, out *vc.Out, r *vc.Rng, caseID int, dir string
 	nEmp := r.Intn(5)
 	bossOf := map[string]string{}
 	var emps []string
+	sym := map[string]string{} // real identifier -> symbolic identifier of the model (content at creation . symbolic id of the boss at creation)
+	empNo := map[string]int{}  // real identifier -> number of the employee
 	for i := 0; i < nEmp; i++ {
 		js := fmt.Sprintf(`{"name": "emp%d", "age": %d}`, i, 20+i)
+		boss := ""
 		if len(emps) > 0 && r.Chance(1, 2) {
 			// boss = an earlier employee that has no minion yet (one-to-one)
-			js = fmt.Sprintf(`{"name": "emp%d", "age": %d, "boss_id": "%s"}`, i, 20+i, emps[len(emps)-1])
+			boss = emps[len(emps)-1]
+			js = fmt.Sprintf(`{"name": "emp%d", "age": %d, "boss_id": "%s"}`, i, 20+i, boss)
 		}
 		id := create("Emp", js)
-		if strings.Contains(js, "boss_id") {
-			bossOf[id] = emps[len(emps)-1]
+		sym[id] = strconv.Itoa(i*1000 + 20 + i)
+		if boss != "" {
+			bossOf[id] = boss
+			sym[id] += "." + sym[boss]
 		}
+		empNo[id] = i
 		emps = append(emps, id)
 	}
 	for _, id := range emps {
@@ -252,14 +260,49 @@ func runCase(ctx context.Context, out *vc.Out, r *vc.Rng, caseID int, dir string
 			_ = ecol.Update(ctx, d) // a one-to-one violation is rejected; fine
 		}
 	}
-	// known finding: a chain boss -> boss -> ... of three or more employees (the exporter recomputes the
-	// identifier of a referenced document without that document's own reference)
-	deepChain := false
-	for _, b := range bossOf {
-		if bb, ok := bossOf[b]; ok && bb != b {
-			deepChain = true
+	// an employee leaves: whoever had them as boss keeps a key that no longer resolves
+	if nEmp > 0 && r.Chance(1, 5) {
+		did, _ := client.NewDocIDFromString(emps[r.Intn(len(emps))])
+		_, err := ecol.Delete(ctx, did)
+		must(err)
+		out.Count("with-deleted-employee")
+	}
+	// the employees as stored now
+	type empState struct {
+		id, boss string
+		content  int
+	}
+	live := map[string]empState{}
+	for _, id := range emps {
+		did, _ := client.NewDocIDFromString(id)
+		d, err := ecol.Get(ctx, did, false)
+		if err != nil {
+			continue // deleted
+		}
+		st := empState{id: id}
+		age, err := d.Get("age")
+		must(err)
+		st.content = empNo[id]*1000 + int(age.(int64))
+		if b, err := d.Get("boss_id"); err == nil && b != nil {
+			st.boss = b.(string)
+		}
+		live[id] = st
+	}
+	// the hypothesis of the round-trip theorem (Backup/Export.lean noChain): no referenced document references another
+	// live document; beyond it lies the known finding (the exporter recomputes the identifier of a referenced document
+	// without that document's own reference)
+	noChain := true
+	for _, d := range live {
+		if d.boss == "" || d.boss == d.id {
+			continue
+		}
+		if t, ok := live[d.boss]; ok && t.boss != "" && t.boss != t.id {
+			if _, ok := live[t.boss]; ok {
+				noChain = false
+			}
 		}
 	}
+	deepChain := !noChain
 	tag := func(t, col string) string {
 		if deepChain && col == "Emp" {
 			return "export-self-reference-chain"
@@ -300,11 +343,138 @@ func runCase(ctx context.Context, out *vc.Out, r *vc.Rng, caseID int, dir string
 			idmap[fmt.Sprint(d["_docID"])] = fmt.Sprint(d["_docIDNew"])
 		}
 	}
+	// the self-referencing collection, record by record, against the mirror of the exporter
+	recs := exported["Emp"]
+	symOf := func(real string) string {
+		if s, ok := sym[real]; ok {
+			return s
+		}
+		return "999999" // an identifier that belongs to no employee
+	}
+	for _, rec := range recs {
+		st, ok := live[fmt.Sprint(rec["_docID"])]
+		if !ok {
+			out.Oracle(line, fmt.Sprintf("[export-unknown-document] case %d: the export holds %v, which is not a live employee", caseID, rec["_docID"]))
+			continue
+		}
+		b := "~"
+		if st.boss != "" {
+			b = symOf(st.boss)
+		}
+		out.Emit(fmt.Sprintf("emp %s %d %s", symOf(st.id), st.content, b), "ok")
+	}
+	if len(recs) != len(live) {
+		out.Oracle(line, fmt.Sprintf("[export-lost-document] case %d: %d live employees, %d exported", caseID, len(live), len(recs)))
+	}
+	str := func(v any) string {
+		if v == nil {
+			return ""
+		}
+		return fmt.Sprint(v)
+	}
+	var sig []string
+	roundTrip := true
+	for _, rec := range recs {
+		p := "diff"
+		if str(rec["_docIDNew"]) == str(rec["_docID"]) {
+			p = "same"
+		}
+		fk := str(rec["boss_id"])
+		pat := "dangling"
+		if fk == "" {
+			pat = "none"
+		} else {
+			found := false
+			for j, o := range recs {
+				if str(o["_docIDNew"]) == fk {
+					pat, found = fmt.Sprintf("new%d", j), true
+					break
+				}
+			}
+			if !found {
+				for j, o := range recs {
+					if str(o["_docID"]) == fk {
+						pat = fmt.Sprintf("old%d", j)
+						break
+					}
+				}
+			}
+		}
+		// what the key has to be: the recorded new identifier of the live employee it referenced
+		want := ""
+		if st := live[str(rec["_docID"])]; st.boss != "" {
+			if _, ok := live[st.boss]; ok {
+				want = idmap[st.boss]
+			}
+		}
+		if fk != want {
+			roundTrip = false
+		}
+		sig = append(sig, p+":"+pat)
+	}
+	out.Emit("export", strings.Join(sig, " ")+fmt.Sprintf(" | hyp=%v", noChain))
 	dst := newNode(ctx)
 	defer dst.Close()
 	if err := dst.DB.BasicImport(ctx, file); err != nil {
 		out.Oracle(line, fmt.Sprintf("[import-error] case %d: import of the exported file fails: %v", caseID, err))
 		return
+	}
+	// the imported employees, record by record, against the mirror of the importer
+	{
+		dcol, err := dst.DB.GetCollectionByName(ctx, "Emp")
+		must(err)
+		type imp struct{ id, boss string }
+		byName := map[string]imp{}
+		ch, err := dcol.GetAllDocIDs(ctx)
+		must(err)
+		var ids []client.DocID
+		for rr := range ch {
+			ids = append(ids, rr.ID)
+		}
+		for _, did := range ids {
+			d, err := dcol.Get(ctx, did, false)
+			must(err)
+			nm, _ := d.Get("name")
+			im := imp{id: did.String()}
+			if b, err := d.Get("boss_id"); err == nil && b != nil {
+				im.boss = b.(string)
+			}
+			byName[fmt.Sprint(nm)] = im
+		}
+		var isig []string
+		for _, rec := range recs {
+			im, ok := byName[str(rec["name"])]
+			if !ok {
+				isig = append(isig, "missing")
+				roundTrip = false
+				continue
+			}
+			p := "id=other"
+			for j, o := range recs {
+				if str(o["_docIDNew"]) == im.id {
+					p = fmt.Sprintf("id=new%d", j)
+					break
+				}
+			}
+			if im.id != str(rec["_docIDNew"]) || im.boss != str(rec["boss_id"]) {
+				roundTrip = false
+			}
+			b := "none"
+			if im.boss != "" {
+				b = "dangling"
+				for j, o := range recs {
+					if byName[str(o["name"])].id == im.boss {
+						b = fmt.Sprintf("doc%d", j)
+						break
+					}
+				}
+			}
+			isig = append(isig, p+":"+b)
+		}
+		out.Emit("import", strings.Join(isig, " ")+fmt.Sprintf(" | roundtrip=%v", roundTrip))
+		if noChain && !roundTrip {
+			out.Oracle(line, fmt.Sprintf("[round-trip-theorem-refuted-on-the-implementation] case %d: no chain of three employees, yet the exported keys or imported identifiers are not the recorded ones", caseID))
+		}
 	}
 	want, e1 := dump(ctx, src, func(id string) string {
 		if n, ok := idmap[id]; ok {
